@@ -195,6 +195,9 @@ func (r *Result) Compare(c *Case) bool {
 		if !sameObs(model[i], c.Obs[i]) {
 			if len(r.Disagreements) < 5 {
 				r.Disagreements = append(r.Disagreements, Disagreement{Case: c.ID, OpIndex: i, Op: c.Ops[i], Go: c.Obs[i], Model: model[i], Ops: clip(c.Ops[:i+1], 400)})
+				if dump := os.Getenv("VERIF_DUMP_OPS"); dump != "" {
+					os.WriteFile(dump, []byte(strings.Join(c.Ops[:i+1], "\n")+"\n"), 0644)
+				}
 			}
 			r.Inc("disagreements_total", 1)
 			return false
